@@ -12,6 +12,25 @@ from ..tracecheck import validate
 OUT = {"error": "error", "needs_network": "needs_network", "plain": "plain_ok"}
 
 
+def _binding(data: bytes) -> t.Optional[tuple]:
+    """(SID as integers, root key id, L0, L1, L2, nonce) as the decrypting side locates them; None if it cannot."""
+    import re
+
+    from dpapi_ng._blob import DPAPINGBlob
+
+    try:
+        b = DPAPINGBlob.unpack(data)
+        k = b.key_identifier
+        m = re.fullmatch(r"S-(\d+)-(\d+)((?:-\d+)+)", str(b.protection_descriptor.value))
+        if not m:
+            return None
+        sid = (int(m.group(1)), int(m.group(2)), tuple(int(x) for x in m.group(3)[1:].split("-")))
+        nonce = bytes(k.key_info) if not k.is_public_key else None
+        return (sid, str(k.root_key_identifier), int(k.l0), int(k.l1), int(k.l2), bool(k.is_public_key), nonce)
+    except Exception:  # noqa
+        return None
+
+
 def run(ctx: Ctx) -> int:
     r = run_tlc("MC_Blob", "MC_Blob_tamper.cfg", rundir=ctx.rundir)
     require_ok(r, "Blob tamper model")
@@ -59,8 +78,15 @@ def run(ctx: Ctx) -> int:
                         sealed = False
                 except Exception:  # noqa
                     pass
+        # the KEK is bound to the SID (through the target security descriptor), the root key id, L0-L2 and - in nonce mode -
+        # the key-identifier nonce: if the decrypting side itself reads different values for one of these out of the modified
+        # blob, the original plaintext cannot legitimately come back (compared as integers / octets, not as text)
+        bound = False
+        if res == "plain_ok":
+            b1, b2 = _binding(tg.blob), _binding(data)
+            bound = b1 is not None and b2 is not None and b1 != b2
         rows.append({"id": len(rows), "kind": "tamper", "layout": tg.layout, "mode": tg.mode, "hash": tg.h, "fields": fields, "kinds": kinds, "what": what,
-                     "res": res, "exc": exc, "allowed": allowed, "sealed": sealed})
+                     "res": res, "exc": exc, "allowed": allowed, "sealed": sealed, "bound": bound})
 
     for h, mode, layout in combos:
         tg = blobfuzz.Target(rng, h, mode, layout, rng.randbytes(rng.choice([1, 16, 33])))
@@ -191,7 +217,7 @@ def run(ctx: Ctx) -> int:
                     del b[pos]
             add(tg, bytes(b), ["random"], kinds, "random sites", ["error", "needs_network", "plain_ok"])
     ctx.count(len(rows))
-    slim = [{k: r_[k] for k in ("id", "kind", "res", "allowed", "sealed")} for r_ in rows]
+    slim = [{k: r_[k] for k in ("id", "kind", "res", "allowed", "sealed", "bound")} for r_ in rows]
     bad, stats = validate(ctx, "TraceBlob", "TraceBlob.cfg", slim, chunk=8000, what="tamper")
     ctx.note_drift("outcome_outside_field_class_prediction", sum(s.get("drift", 0) for s in stats))
     for i, clauses in bad.items():
@@ -215,8 +241,11 @@ def run(ctx: Ctx) -> int:
 def selftest(ctx: Ctx) -> int:
     from ..tracecheck import selftest_expect_reject
 
-    good = [{"id": 0, "kind": "tamper", "res": "error", "allowed": ["error"], "sealed": True}, {"id": 1, "kind": "tamper", "res": "plain_ok", "allowed": ["error"], "sealed": False}]
-    bad = [{"id": 2, "kind": "tamper", "res": "plain_different", "allowed": ["error"], "sealed": False}, {"id": 3, "kind": "tamper", "res": "plain_ok", "allowed": ["error"], "sealed": True}]
+    good = [{"id": 0, "kind": "tamper", "res": "error", "allowed": ["error"], "sealed": True, "bound": False},
+            {"id": 1, "kind": "tamper", "res": "plain_ok", "allowed": ["error"], "sealed": False, "bound": False}]
+    bad = [{"id": 2, "kind": "tamper", "res": "plain_different", "allowed": ["error"], "sealed": False, "bound": False},
+           {"id": 3, "kind": "tamper", "res": "plain_ok", "allowed": ["error"], "sealed": True, "bound": False},
+           {"id": 4, "kind": "tamper", "res": "plain_ok", "allowed": ["error"], "sealed": False, "bound": True}]
     selftest_expect_reject(ctx, "TraceBlob", "TraceBlob.cfg", good, bad, "c04")
     print("selftest C04 ok")
     return 0
